@@ -545,3 +545,74 @@ package values
 //@ panics nothing
 //@ assigns nothing
 //@ ensures def: result.b == b && result.e == e
+
+//@ func (*values.dropWrapper).Contains
+//@ props C18 C01
+//@ panics nothing
+//@ requires recv: w != nil && o != nil
+//@ assigns F$values.dropWrapper$d, F$values.dropWrapper$v, F$values.dropWrapper$Once
+//@ ghost r Val = nil
+//@ ghost out Bool = false
+//@ at call Resolve #1: r = result
+//@ at call Contains #1 before assert delegates: this == r && arg0 == o
+//@ at call Contains #1: out = result
+//@ ensures same: result == out
+
+//@ func (*values.dropWrapper).Equal
+//@ props C18 C01
+//@ panics nothing
+//@ requires recv: w != nil && o != nil
+//@ assigns F$values.dropWrapper$d, F$values.dropWrapper$v, F$values.dropWrapper$Once
+//@ ghost r Val = nil
+//@ ghost out Bool = false
+//@ at call Resolve #1: r = result
+//@ at call Equal #1 before assert delegates: this == r && arg0 == o
+//@ at call Equal #1: out = result
+//@ ensures same: result == out
+
+//@ func (*values.dropWrapper).Less
+//@ props C18 C01
+//@ panics nothing
+//@ requires recv: w != nil && o != nil
+//@ assigns F$values.dropWrapper$d, F$values.dropWrapper$v, F$values.dropWrapper$Once
+//@ ghost r Val = nil
+//@ ghost out Bool = false
+//@ at call Resolve #1: r = result
+//@ at call Less #1 before assert delegates: this == r && arg0 == o
+//@ at call Less #1: out = result
+//@ ensures same: result == out
+
+//@ func (*values.dropWrapper).Int
+//@ props C18 C01
+//@ panics values.TypeError
+//@ requires recv: w != nil
+//@ assigns F$values.dropWrapper$d, F$values.dropWrapper$v, F$values.dropWrapper$Once
+//@ ghost r Val = nil
+//@ ghost out Int = 0
+//@ at call Resolve #1: r = result
+//@ at call Int #1 before assert delegates: this == r
+//@ at call Int #1: out = result
+//@ ensures same: result == out
+
+//@ func values.isDefaultFunctionType
+//@ props C01
+//@ panics nothing
+//@ requires typ: typ != 0
+//@ assigns nothing
+
+//@ func values.convertValueToInt
+//@ props C01 C17
+//@ panics nothing
+//@ assigns nothing
+
+//@ func values.convertValueToFloat
+//@ props C01 C17
+//@ panics nothing
+//@ assigns nothing
+
+// sort: "key": the comparator never panics, whatever the elements are (C01, C15)
+//@ func (values.sortableByProperty).Less
+//@ props C01 C15
+//@ panics nothing
+//@ requires inrange: 0 <= i && i < len(s.data) && 0 <= j && j < len(s.data)
+//@ assigns nothing
